@@ -155,8 +155,9 @@ def run_api_op(kind, op, op_index, solver, sc, h, recog: Recognizer, world, reco
         return
 
     # ---------------- choose the input
-    base_kind = kind.replace("_mut", "")
-    mutated = kind.endswith("_mut")
+    base_kind = kind.replace("_mut", "").replace("_word", "")
+    mutated = kind.endswith("_mut") or kind.endswith("_word")
+    own_word = kind.endswith("_word")  # a word of the language derived by the harness, unedited
     inp_str: Optional[str] = None
     inp_tree = None
     if not mutated:
@@ -166,7 +167,7 @@ def run_api_op(kind, op, op_index, solver, sc, h, recog: Recognizer, world, reco
         inp_tree = rng.choice(h["trees"])
         inp_str = str(inp_tree)
     else:
-        if h["trees"] and rng.random() < 0.6:
+        if h["trees"] and rng.random() < 0.6 and not own_word:
             inp_str = edit_string(str(rng.choice(h["trees"])), rng)
         else:
             w = sample_word(grammar, "<start>", rng, max_depth=6)
@@ -174,7 +175,7 @@ def run_api_op(kind, op, op_index, solver, sc, h, recog: Recognizer, world, reco
                 record["outcomes"].append([kind, i, "no_input"])
                 return
             inp_str = w
-            if rng.random() < 0.3:
+            if rng.random() < 0.3 and not own_word:
                 inp_str = edit_string(inp_str, rng)
     if len(inp_str) > 120:
         record["outcomes"].append([kind, i, "input_too_long"])
